@@ -33,6 +33,10 @@ fn data() -> Object {
         ("size", s("own-size")),
         ("first", s("own-first")),
         ("0", s("zero-key")),
+        ("007", s("bond")),
+        ("7", s("seven")),
+        ("+1", s("plus-one")),
+        ("-0", s("minus-zero")),
         ("k", obj(vec![("deep", arr(vec![s("d0"), s("d1")]))])),
     ]);
     let mut d = Object::new();
@@ -60,7 +64,7 @@ fn steps() -> Vec<Expr> {
     for n in -7..=6 {
         v.push(lit_i(n));
     }
-    for k in ["xs", "e", "one", "size", "first", "last", "0", "1", "k", "deep", "p", "nope", "é"] {
+    for k in ["xs", "e", "one", "size", "first", "last", "0", "1", "k", "deep", "p", "nope", "é", "007", "7", "+1", "-0", "00"] {
         v.push(lit_s(k));
     }
     for x in ["idx0", "idx1", "idxm1", "idxbig", "key_xs", "key_size", "key_missing", "sidx", "undefined_var", "arrkey", "t"] {
